@@ -281,7 +281,18 @@ func genDir(t *rapid.T, label string) string {
 	for i := range parts {
 		parts[i] = genComp().Draw(t, label+"comp")
 	}
-	return "/" + strings.Join(parts, "/")
+	d := "/" + strings.Join(parts, "/")
+	if rapid.IntRange(0, 7).Draw(t, label+"long") == 0 {
+		// a directory name of realistic length: 60-140 bytes (deep project trees, long user or volume names)
+		want := rapid.SampledFrom([]int{60, 63, 64, 65, 100, 127, 128, 140}).Draw(t, label+"len")
+		for len(d) < want {
+			d += "/" + strings.Repeat("d", min(12, want-len(d)-1))
+			if len(d) == want-1 { // a bare separator cannot end the name
+				d += "x"
+			}
+		}
+	}
+	return d
 }
 
 func genRepl(t *rapid.T, existing []mapping) string {
